@@ -155,6 +155,16 @@ func (w *world) judge() {
 			}
 		}
 		for _, iv := range r.ivs {
+			if strings.HasSuffix(iv.Leave, "-undrained") && reliable(r.tr) {
+				for i := max(iv.From, iv.Confirmed+1); i < iv.To; i++ {
+					if w.written[i].Err == "" {
+						w.res.UndrainedTotal++
+						if seen[i] == 0 {
+							w.res.UndrainedLost++
+						}
+					}
+				}
+			}
 			end := iv.Confirmed + 1
 			if iv.To >= 0 && iv.To < end {
 				end = iv.To
